@@ -413,6 +413,10 @@ def _bind(helper, call, is_method, keep=()):
         if p not in bound:
             if p not in defaults:
                 raise _NotInlinable("missing argument")
+            if not isinstance(defaults[p], ast.Constant):
+                # a default is evaluated ONCE, when the function is defined (`def h(e, route=route)` pins the route of that iteration;
+                # `def f(x, acc=[])` shares one list): putting its expression at the call site would evaluate it later and again
+                raise _NotInlinable("default value is not a literal")
             bound[p] = defaults[p]
     body_nodes = [n for s in helper.body for n in _walk_local(s)]
     stored = {n.id for n in body_nodes if isinstance(n, ast.Name) and isinstance(n.ctx, (ast.Store, ast.Del))}
@@ -3161,6 +3165,137 @@ def _drop_emptied_containers(tree, names):
     return n
 
 
+def _apply_decorator_factories(modname, tree, inv):
+    """N21b: `@factory(a)` / `@deco` with a NEW wrapper of FIXED parameters, possibly a coroutine:
+        def factory(p): def decorate(handler): async def w(request): <pre> return await handler(request) <handlers>; return w; return decorate
+    The decorated function gets the wrapper's text around its body; what the factory's parameters were bound to becomes extra
+    defaulted parameters of the function (evaluated when it is defined, as the decorator's arguments were)."""
+    if inv is None:
+        return 0
+
+    def wrapper_of(decorate):
+        b = _helper_body(decorate)
+        if len(decorate.args.args) != 1 or decorate.args.vararg or decorate.args.kwarg or decorate.decorator_list:
+            return None
+        if len(b) != 2 or not isinstance(b[0], FUNC) or not (isinstance(b[1], ast.Return) and isinstance(b[1].value, ast.Name) and b[1].value.id == b[0].name):
+            return None
+        w, hname = b[0], decorate.args.args[0].arg
+        if any(not (isinstance(d, ast.Call) and _dotted(d.func) in ("functools.wraps", "wraps")) for d in w.decorator_list):
+            return None
+        a = w.args
+        if a.vararg or a.kwarg or a.kwonlyargs or a.posonlyargs or a.defaults or not a.args:
+            return None
+        ps = [x.arg for x in a.args]
+        calls = [c for c in ast.walk(w) if isinstance(c, ast.Call) and isinstance(c.func, ast.Name) and c.func.id == hname]
+        if len(calls) != 1 or calls[0].keywords or [x.id if isinstance(x, ast.Name) else None for x in calls[0].args] != ps:
+            return None
+        uses = [x for x in ast.walk(w) if isinstance(x, ast.Name) and x.id == hname]
+        if len(uses) != 1 + len(w.decorator_list):
+            return None
+        is_async = isinstance(w, ast.AsyncFunctionDef)
+        ret = next((r for r in ast.walk(w) if isinstance(r, ast.Return) and ((r.value is calls[0] and not is_async) or
+                                                                                (is_async and isinstance(r.value, ast.Await) and r.value.value is calls[0]))), None)
+        if ret is None or any(isinstance(x, FUNC + (ast.Lambda,)) for x in ast.walk(w) if x is not w):
+            return None
+        if any(isinstance(x, (ast.For, ast.AsyncFor, ast.While)) and any(y is ret for y in ast.walk(x)) for x in ast.walk(w)):
+            return None
+        return w, hname, ps, ret
+
+    plain, factories = {}, {}
+    for f in [x for x in tree.body if isinstance(x, ast.FunctionDef)]:
+        if f"{modname}:{f.name}" in inv or f.decorator_list or f.args.vararg or f.args.kwarg or f.args.kwonlyargs:
+            continue
+        got = wrapper_of(f)
+        if got is not None:
+            plain[f.name] = (f, None) + got
+            continue
+        b = _helper_body(f)
+        if len(b) == 2 and isinstance(b[0], ast.FunctionDef) and isinstance(b[1], ast.Return) and isinstance(b[1].value, ast.Name) and b[1].value.id == b[0].name and not f.args.defaults:
+            got = wrapper_of(b[0])
+            if got is not None:
+                fparams = [x.arg for x in f.args.args]
+                w = got[0]
+                # the factory's parameters are only read inside the wrapper
+                if not any(isinstance(x, ast.Name) and x.id in fparams and isinstance(x.ctx, (ast.Store, ast.Del)) for x in ast.walk(f)):
+                    factories[f.name] = (f, fparams) + got
+    if not plain and not factories:
+        return 0
+    n_done = 0
+    for fn in [x for x in ast.walk(tree) if isinstance(x, FUNC)]:
+        while fn.decorator_list:
+            d = fn.decorator_list[-1]
+            entry, dargs = None, []
+            if isinstance(d, ast.Name) and d.id in plain:
+                entry = plain[d.id]
+            elif isinstance(d, ast.Call) and isinstance(d.func, ast.Name) and d.func.id in factories and not d.keywords and all(_simple_arg(x) for x in d.args):
+                entry, dargs = factories[d.func.id], list(d.args)
+            if entry is None:
+                break
+            f, fparams, w, hname, ps, ret = entry
+            if fparams is not None and len(dargs) != len(fparams):
+                break
+            if isinstance(w, ast.AsyncFunctionDef) != isinstance(fn, ast.AsyncFunctionDef):
+                break
+            a = fn.args
+            if a.vararg or a.kwarg or a.kwonlyargs or a.posonlyargs or len(a.args) < len(ps) or len(a.args) - len(a.defaults) != len(ps):
+                break          # exactly the forwarded parameters are required, the rest are defaulted
+            own = [x.arg for x in a.args]
+            wl = {x.id for x in ast.walk(w) if isinstance(x, ast.Name) and isinstance(x.ctx, (ast.Store, ast.Del))} | {h.name for h in ast.walk(w) if isinstance(h, ast.ExceptHandler) and h.name}
+            fl = {x.id for x in ast.walk(fn) if isinstance(x, ast.Name)} | set(own)
+            if (wl & fl) or (set(fparams or []) & fl) or _would_capture(w, fn):
+                break
+            wbody = [copy.deepcopy(s_) for s_ in _helper_body(w)]
+            body = list(fn.body)
+            doc = []
+            if body and isinstance(body[0], ast.Expr) and isinstance(body[0].value, ast.Constant) and isinstance(body[0].value.value, str):
+                doc, body = [body[0]], body[1:]
+            if not _always_returns(body):
+                body = body + [ast.copy_location(ast.Return(value=ast.Constant(value=None)), fn)]
+            done = [False]
+
+            def is_fwd(s_):
+                if not isinstance(s_, ast.Return) or s_.value is None:
+                    return False
+                v = s_.value.value if isinstance(s_.value, ast.Await) else s_.value
+                return isinstance(v, ast.Call) and isinstance(v.func, ast.Name) and v.func.id == hname
+
+            def splice(stmts):
+                out = []
+                for s_ in stmts:
+                    if is_fwd(s_):
+                        out += body
+                        done[0] = True
+                        continue
+                    for fld in ("body", "orelse", "finalbody"):
+                        sub = getattr(s_, fld, None)
+                        if isinstance(sub, list) and sub and isinstance(sub[0], ast.stmt):
+                            setattr(s_, fld, splice(sub))
+                    for h in getattr(s_, "handlers", []) or []:
+                        h.body = splice(h.body)
+                    out.append(s_)
+                return out
+            new_body = splice(wbody)
+            if not done[0]:
+                break
+            ren = {p_: q_ for p_, q_ in zip(ps, own) if p_ != q_}
+            if ren:
+                new_body = [s_ if any(s_ is b_ for b_ in body) else _Renamer(dict(ren)).visit(s_) for s_ in new_body]
+            fn.body = doc + new_body
+            for p_, v in zip(fparams or [], dargs):
+                fn.args.args.append(ast.arg(arg=p_, annotation=None))
+                fn.args.defaults.append(copy.deepcopy(v))
+            fn.decorator_list.pop()
+            ast.fix_missing_locations(fn)
+            n_done += 1
+    if n_done:
+        for name, ent in list(plain.items()) + list(factories.items()):
+            f = ent[0]
+            inside = {id(x) for x in ast.walk(f)}
+            if not any(isinstance(x, ast.Name) and x.id == name and id(x) not in inside for x in ast.walk(tree)) and f in tree.body:
+                tree.body[tree.body.index(f)] = ast.copy_location(ast.Pass(), f)
+    return n_done
+
+
 # ------------------------------------------------------------------ N7 nested ifs without else -> one conjunction
 
 def _merge_nested_ifs(fn):
@@ -3559,7 +3694,7 @@ def normalize(modname, tree):
     stats["named_tuples"] = _named_tuples_to_tuples(modname, tree, inv)
     stats["container_methods"], container_classes = _container_methods_as_functions(modname, tree, inv)
     stats["properties"] = _properties_to_methods(modname, tree, inv)
-    stats["decorators_applied"] = _apply_new_decorators(modname, tree, inv)
+    stats["decorators_applied"] = _apply_new_decorators(modname, tree, inv) + _apply_decorator_factories(modname, tree, inv)
     stats["devirtualised"] = _devirtualise(modname, tree, inv)
     stats["objects_to_closures"] = _objects_to_closures(modname, tree, inv)
     stats["merged_defs"] = sum(_merge_conditional_defs(f_) for f_ in [x for x in ast.walk(tree) if isinstance(x, FUNC)])
